@@ -10,7 +10,7 @@ import witness
 ROOT = os.path.dirname(os.path.dirname(os.path.abspath(__file__)))
 SPEC = os.path.join(ROOT, "spec")
 JAR = "/opt/veriftools/tla/tla2tools.jar:/opt/veriftools/tla/CommunityModules-deps.jar"
-SIM_CFGS = ["MC_Sim.cfg", "MC_SimFaults.cfg", "MC_SimPrio.cfg"]
+SIM_CFGS = ["MC_Sim.cfg", "MC_SimFaults.cfg", "MC_SimPrio.cfg", "MC_SimOutside.cfg", "MC_SimAbort.cfg", "MC_SimHealth.cfg", "MC_SimConn.cfg", "MC_SimValidate.cfg"]
 
 
 def one(run, cfg, seed):
